@@ -89,6 +89,14 @@ PROPS = {
         real=['coroutine::Scheduler (ucontext switching, ready queue, cancel, cleanup, join)', 'coroutine::Channel/Mutex/Semaphore/Broadcast/Condition', 'event loop (runNext-driven scheduling)'],
         stub=['nothing in tbox; the routine bodies are scripts interpreted by the harness', 'monotonic clock'],
     ),
+    'C20': dict(
+        harness='c20_alarm',
+        title='Alarms',
+        flavours=dict(asan=dict(quick_s=30, thorough_s=600)),
+        mode='single',
+        real=['alarm::Alarm (arming, re-arming, refresh, remainSeconds)', 'WeeklyAlarm / OneshotAlarm / WorkdayAlarm + WorkdayCalendar / CronAlarm + ccronexpr', 'event loop one-shot timers'],
+        stub=['monotonic clock and wall clock (both virtual; skew between them and wall-clock jumps are injected)', 'time zone (always set explicitly)'],
+    ),
 }
 
 NOT_APPLICABLE = {
@@ -100,4 +108,4 @@ NOT_APPLICABLE = {
 
 # planned in DESIGN.md §7 but whose harness is not built yet — not claimed until it is
 PENDING = {p: 'harness not built yet (planned in DESIGN.md §7); not claimed until the check exists' for p in
-           ['C04', 'C09', 'C11', 'C13', 'C17', 'C20']}
+           ['C04', 'C09', 'C11', 'C13', 'C17']}
